@@ -5,7 +5,7 @@ Every function here is an *assumed contract* on third-party code (listed in evid
 import ast
 from fractions import Fraction
 import z3
-from .vals import (SV, Opt, Inf, Vec, Mat, Obj, SList, Forall, Exists, Hyp, Func, Builtin, ClassRef, ExcClass, ModuleRef,
+from .vals import (PySet, SV, Opt, Inf, Vec, Mat, Obj, SList, Forall, Exists, Hyp, Func, Builtin, ClassRef, ExcClass, ModuleRef,
                    Unsupported, StrS, fresh, fresh_fun, to_frac, is_num)
 from .ops import term, boolterm, mk, is_scalar, is_real, UF
 
@@ -768,12 +768,12 @@ def make_set(it, items):
                     break
         if not dup:
             out.append(x)
-    return out   # sets are modelled as duplicate-free lists (iteration order = first occurrence; order is
+    return PySet(out)   # sets are modelled as duplicate-free lists (iteration order = first occurrence; order is
     #              unspecified in python: contracts must not depend on it)
 
 
 def b_set(it, a, k):
-    return make_set(it, it.iterate(a[0])) if a else []
+    return make_set(it, it.iterate(a[0])) if a else PySet()
 
 
 def b_sorted(it, a, k):
